@@ -555,6 +555,10 @@ int main(int argc, char** argv) {
   std::vector<Board> boards;
   boards.push_back({"L3", lattice(3, 3, 1), true, false, false, {2, 5}});
   boards.push_back({"L43x10", lattice(4, 3, 10), false, true, false, {150, 450, 1050}});
+  // the unit lattice far from the origin (beyond 2^53, where a coordinate no longer fits a double exactly): the epsilon
+  // functions work on coordinate DIFFERENCES, so every contract must hold there exactly as it does at the origin
+  { std::vector<P> pts = lattice(3, 3, 1); for (auto& q : pts) { q.x += ((i64)1 << 55) + 1; q.y -= ((i64)1 << 56) - 3; }
+    boards.push_back({"T55", pts, false, true, false, {2, 5}}); }
   for (int sh : {25, 40}) {
     i64 K = (i64)1 << sh; std::vector<P> pts = lattice(3, 3, 1);
     for (auto& q : pts) { q.x = q.x * K - K; q.y = q.y * K - K; }
